@@ -606,7 +606,8 @@ impl<'a> Searcher<'a> {
             _ => root_depth,
         };
 
-        let depth = canonical_depth - base_depth + 1;
+        // a followed symlink may lead to a directory that lies less deep than the root
+        let depth = canonical_depth.saturating_sub(base_depth) + 1;
 
         // Read the directory and process each entry
         match fs::read_dir(dir) {
